@@ -1,4 +1,5 @@
 import Brc20.Model.DriverT
+import Brc20.Model.DriverC
 
 open Brc20
 
@@ -9,9 +10,16 @@ partial def loopT (h : IO.FS.Stream) (out : IO.FS.Stream) (s : DriverT.St) : IO 
   out.putStrLn o
   loopT h out s'
 
+partial def loopStateless (h : IO.FS.Stream) (out : IO.FS.Stream) (f : String → String) : IO Unit := do
+  let line ← h.getLine
+  if line.isEmpty then return ()
+  out.putStrLn (f line)
+  loopStateless h out f
+
 def main (args : List String) : IO UInt32 := do
   let stdin ← IO.getStdin
   let stdout ← IO.getStdout
   match args with
   | ["T"] => loopT stdin stdout {}; return 0
+  | ["C"] => loopStateless stdin stdout DriverC.step; return 0
   | _ => IO.eprintln "usage: brc20model <suite>"; return 2
